@@ -53,6 +53,7 @@ func runC18(r *Result, d *drv.Driver, tier string, seed int64, replay string) {
 	c18Options(r)
 	c18MarkerForms(r)
 	c18OtherKeys(r)
+	c18Repeated(r)
 	// samples: what the real encoder emits for a few annotations
 	for _, name := range []string{"UNIQUE_IDENTIFIER", "REQUEST_MESSAGE", "SENSITIVE"} {
 		r.sample(map[string]string{"annotation": name, "real_encode": encodeWithAnnotation(name)})
@@ -920,4 +921,76 @@ func c19Concurrent(r *Result) {
 	if wrong > 0 {
 		r.find(Finding{Kind: "violation", What: "Encoders running at the same time in different goroutines produced other bytes than they produce one after the other", Input: "8 goroutines x 400 messages", Actual: fmt.Sprintf("%d wrong outputs; first: %v", wrong, first.Load())})
 	}
+}
+
+// c18Repeated: what an annotation resolves to does not depend on the OTHER annotations of the struct. For every tag name, a
+// struct with two fields annotated with that same name (Replace Existing / Replacement style pairs; and, for names sharing a
+// number - the three batch-item aliases -, one field under each name): Encode writes two items under the number of the name,
+// Decode hands them back to the two fields in order.
+func c18Repeated(r *Result) {
+	tagNum := map[string]uint32{}
+	for _, c := range gentab.Consts {
+		if c.Typ == "Tag" {
+			tagNum[c.Name] = uint32(c.Num)
+		}
+	}
+	var names []string
+	for _, kv := range gentab.MapKeys["tagMap"] {
+		names = append(names, strings.SplitN(kv, "=", 2)[0])
+	}
+	byNum := map[uint32][]string{}
+	for _, n := range names {
+		if n != "-" && n != "ANY_TAG" && tagNum[n] != 0 {
+			byNum[tagNum[n]] = append(byNum[tagNum[n]], n)
+		}
+	}
+	item := func(tag uint32, v byte) []byte {
+		return []byte{byte(tag >> 16), byte(tag >> 8), byte(tag), 2, 0, 0, 0, 4, 0, 0, 0, v, 0, 0, 0, 0}
+	}
+	bad := 0
+	probe := func(x, y string) {
+		st := reflect.StructOf([]reflect.StructField{
+			{Name: "Tag", Type: reflect.TypeOf(kmip.Tag(0)), Tag: `kmip:"ACTIVATION_DATE"`, Anonymous: true},
+			{Name: "A", Type: reflect.TypeOf(int32(0)), Tag: reflect.StructTag(fmt.Sprintf(`kmip:"%s,required"`, x))},
+			{Name: "B", Type: reflect.TypeOf(int32(0)), Tag: reflect.StructTag(fmt.Sprintf(`kmip:"%s"`, y))},
+		})
+		v := reflect.New(st)
+		v.Elem().Field(1).SetInt(7)
+		v.Elem().Field(2).SetInt(9)
+		want := append([]byte{0x42, 0x00, 0x01, 0x01, 0, 0, 0, 32}, append(item(tagNum[x], 7), item(tagNum[y], 9)...)...)
+		out, _, _ := realEncode(v.Interface())
+		r.Evaluations++
+		if out != "ok "+hx(want) && bad < 5 {
+			bad++
+			r.find(Finding{Kind: "violation", What: "annotations kmip:\"" + x + "\" and kmip:\"" + y + "\" on two fields of one struct do not both resolve to the number of the name",
+				Input: map[string]string{"field A": x + ",required", "field B": y}, Expect: "ok " + hx(want), Actual: out})
+			return
+		}
+		tgt := reflect.New(st)
+		var err error
+		func() {
+			defer func() {
+				if p := recover(); p != nil {
+					err = fmt.Errorf("panic: %v", p)
+				}
+			}()
+			err = kmip.NewDecoder(bytes.NewReader(want)).Decode(tgt.Interface())
+		}()
+		if (err != nil || tgt.Elem().Field(1).Int() != 7 || tgt.Elem().Field(2).Int() != 9) && bad < 5 {
+			bad++
+			r.find(Finding{Kind: "violation", What: "two items under the number of " + x + " are not decoded into the two fields annotated kmip:\"" + x + "\" / kmip:\"" + y + "\"",
+				Input: map[string]string{"message": hx(want)}, Expect: "A = 7, B = 9, no error", Actual: fmt.Sprintf("A = %d, B = %d, err = %v", tgt.Elem().Field(1).Int(), tgt.Elem().Field(2).Int(), err)})
+		}
+	}
+	n := 0
+	for _, x := range names {
+		if x == "-" || x == "ANY_TAG" || tagNum[x] == 0 {
+			continue
+		}
+		for _, y := range byNum[tagNum[x]] {
+			probe(x, y)
+			n++
+		}
+	}
+	r.Stats["annotation-repeated-in-one-struct-probes"] = n
 }
